@@ -114,9 +114,25 @@ pub fn run(args: &Args) {
     let ts = crng.chance(1, 2);
     let opts = DirGenOpts { file_word: &wc.file_word, line_word: &wc.line_word, decoys: wc.decoys.clone(), ts };
     let df = if crng.chance(1, 12) { first_line_variant(&mut crng, &opts) } else { directive_file(&mut crng, &opts) };
-    let (codes, subset_kind) = rule_subset(&mut crng);
+    let (mut codes, mut subset_kind) = rule_subset(&mut crng);
+    // every seventh case the enabled rules are exactly the built-in codes the file directive names (every enabled rule
+    // is switched off for the file; whatever else reports — the external linter — is not)
+    let mut force_ext = false;
+    if case_no % 7 == 3 {
+      if let Some(fc) = df.intended_file.as_ref() {
+        let named: Vec<String> = fc.iter().filter(|c| all.contains(c)).cloned().collect();
+        if !named.is_empty() {
+          let mut named = named;
+          named.sort();
+          named.dedup();
+          codes = named;
+          subset_kind = "exactly-the-file-directive-codes";
+          force_ext = true;
+        }
+      }
+    }
     let names_ext = df.intended_file.as_ref().map_or(false, |fc| fc.iter().any(|c| EXT_CODES.contains(&c.as_str())));
-    let ext = if crng.chance(1, 3) || (names_ext && crng.chance(1, 2)) { gen_ext(&mut crng, &df.src, df.intended_file.as_ref()) } else { None };
+    let ext = if force_ext || crng.chance(1, 3) || (names_ext && crng.chance(1, 2)) { gen_ext(&mut crng, &df.src, df.intended_file.as_ref()) } else { None };
     let ext_decline = ext.is_none() && crng.chance(1, 4);
     run_case(&mut out, case_no, wc, &df, &codes, subset_kind, ts, ext, ext_decline, &all);
   }
@@ -152,6 +168,20 @@ pub fn run_case(out: &mut Out, case_no: usize, wc: &WordCfg, df: &DirFile, codes
       return;
     }
   };
+  // the observer must not be what makes the result: the same run without the spy rule gives the same diagnostics (a
+  // linter whose every rule is named by the file directive exists only without it)
+  {
+    let plain = mk_linter(rules_by_codes(codes), &wc.words);
+    if let Outcome::Ok(dp) = lint_with(&plain, &df.src, extn, &Cfg::default(), cb.clone()) {
+      if dp != final_ds {
+        let only_with: Vec<_> = final_ds.iter().filter(|d| !dp.contains(d)).map(|d| d.json()).collect();
+        let only_without: Vec<_> = dp.iter().filter(|d| !final_ds.contains(d)).map(|d| d.json()).collect();
+        for prop in ["C04", "C05", "C06", "C07", "C16"] {
+          out.found(prop, "result-depends-on-an-unrelated-extra-rule", &df.src, json!({"meta": meta, "only_with_the_extra_rule": only_with, "only_without_it": only_without}));
+        }
+      }
+    }
+  }
   let spy = log.lock().unwrap().clone();
   // the same linter instance is used again with an external linter that declares other codes (or none, or declines),
   // then once more as before: what an earlier call declared must not carry over (both directions)
@@ -280,6 +310,13 @@ pub fn run_case(out: &mut Out, case_no: usize, wc: &WordCfg, df: &DirFile, codes
   }
   if !bare && !spy.ran {
     out.found("C05", "file-silenced-without-bare-leading-directive", &key, json!({"meta": meta}));
+    // …and with it went whatever the external linter reported under codes the directive does not list
+    let listed: BTreeSet<String> = intended_file.clone().unwrap_or_default();
+    let lost: Vec<String> = ext.as_ref().map(|e| e.diags.iter().filter(|d| !listed.contains(&d.0) && !final_ds.iter().any(|f| f.code == d.0)).map(|d| d.0.clone()).collect()).unwrap_or_default();
+    let line_listed = |code: &String| intended_lines.values().any(|c| c.contains(code));
+    if lost.iter().any(|c| !line_listed(c)) {
+      out.found("C06", "file-directive-removed-diagnostics-it-does-not-list", &key, json!({"meta": meta, "lost_codes": lost}));
+    }
   }
   if !spy.ran {
     return;
